@@ -295,9 +295,24 @@ pub fn run(tier: Tier) -> i32 {
                     nontrivial += 1;
                 }
                 outcomes.insert(h64(&(r_contains, r_exact, hits.len().min(2), collision)));
-                for (name, a) in &backends {
+                for (bi, (name, a)) in backends.iter().enumerate() {
                     let kind = if name.starts_with("merged") { "merged" } else { name };
                     let mut bad: Option<(&str, Value)> = None;
+                    // A case collision only bites inside ONE word map. In a merged dictionary the
+                    // children are separate maps: colliding words in different children must both
+                    // be found (union semantics), the first child winning for spelling/metadata.
+                    let (collision, hits) = if bi >= 2 {
+                        let mask = (bi - 2) as u32;
+                        let in_b = |k: usize| mask & (1 << k) != 0;
+                        let coll = by_lower.values().any(|v| {
+                            v.iter().filter(|k| in_b(**k)).count() > 1 || v.iter().filter(|k| !in_b(**k)).count() > 1
+                        });
+                        let mut h: Vec<usize> = hits.iter().filter(|k| !in_b(**k)).cloned().collect();
+                        h.extend(hits.iter().filter(|k| in_b(**k)).cloned());
+                        (coll, h)
+                    } else {
+                        (collision, hits.clone())
+                    };
                     // internal consistency between char-slice and str variants: always required
                     if a.contains != a.contains_str || a.exact != a.exact_str || a.meta != a.meta_str {
                         bad = Some(("str-variant-differs", json!({"answers": format!("{a:?}")})));
